@@ -142,6 +142,11 @@ def check(repo: Repo, rep: Report) -> None:
     rep.ob("N3-auto-connect", asub, "the subscriber is subscribed to the connectable", any(
         isinstance(s.node, ast.Assign) and method_call(s.node.value, selfs, "subscribe") and u(s.node.value.args[0]) == asub.params[0] for s in sites(asub)),
         "auto_connect does not subscribe its subscribers")
+    from .typestate_common import rule_scheduler_forwarded
+    rep.rule("F0-scheduler-forwarded", "subscriptions made for a subscriber (to the subject / the connectable / the mapped sequence) pass its scheduler on", floor=3)
+    for rel_, q_ in ((CO, "ConnectableObservable._subscribe_core"), (CO, "ConnectableObservable.auto_connect.subscribe"), (RC, "ref_count_.ref_count.subscribe"),
+                     (MC, "multicast_.multicast.subscribe")):
+        rule_scheduler_forwarded(rep, "F0-scheduler-forwarded", repo.fn(rel_, q_))
     # delegations
     def ctor_of(fn, e, depth=3):
         """constructor name a (possibly aliased) expression denotes"""
